@@ -61,12 +61,92 @@ structure Node where
   fn : Option Nat
   deriving DecidableEq, Repr
 
+/-! ### the pen as an emitter: attributes that matter, freeze/thaw, the `changed` flag (`src/pen.c`) -/
+
+/-- a template pen handed to `tickit_pen_copy` / `tickit_pen_copy_attr` (only BOLD and FG matter here) -/
+structure Tmpl where
+  bold : Option Bool
+  fg : Option Int
+  /-- RGB8 secondary of the foreground, as `0xRRGGBB` -/
+  rgb : Option Nat
+  deriving DecidableEq, Repr
+
+/-- what the model keeps of `struct TickitPen` besides bindings and reference count -/
+structure PenSt where
+  bold : Option Bool := none
+  fg : Option Int := none
+  rgb : Option Nat := none
+  /-- `freezecount` -/
+  freeze : Nat := 0
+  /-- a change arrived while frozen -/
+  changed : Bool := false
+  deriving DecidableEq, Repr
+
+/-- the statements a pen operation consists of, as far as emission goes (freeze..thaw regions are tasks of their own) -/
+inductive PenStep
+  /-- `tickit_pen_set_bool_attr(pen, TICKIT_PEN_BOLD, v)`: set, then `changed(pen)` -/
+  | setBool (v : Bool)
+  /-- `tickit_pen_set_colour_attr(pen, TICKIT_PEN_FG, n)`: set, drop the RGB8, emit at once (even when frozen) -/
+  | setCol (n : Int)
+  /-- `tickit_pen_set_colour_attr_rgb8(pen, TICKIT_PEN_FG, r)`: only if FG is set; then `changed(pen)` -/
+  | setRgb (r : Nat)
+  /-- `tickit_pen_copy_attr(pen, t, TICKIT_PEN_FG)`: a freeze..thaw region of its own -/
+  | copyAttrFg (t : Tmpl)
+  /-- the FG / BOLD iterations of the loop of `tickit_pen_copy(pen, t, overwrite)` -/
+  | loopFg (t : Tmpl) (ow : Bool)
+  | loopBold (t : Tmpl) (ow : Bool)
+  deriving DecidableEq, Repr
+
+/-- the pen operations the harness offers -/
+inductive PenOp
+  | setBool (v : Bool)
+  | setCol (n : Int)
+  /-- `tickit_pen_copy(pen, t, overwrite)` -/
+  | copy (t : Tmpl) (ow : Bool)
+  /-- `tickit_pen_copy_attr(pen, t, TICKIT_PEN_FG)` -/
+  | copyAttr (t : Tmpl)
+  /-- `tickit_pen_set_colour_attr_desc(pen, TICKIT_PEN_FG, "n")` or `"n#rrggbb"` -/
+  | desc (n : Int) (rgb : Option Nat)
+  deriving DecidableEq, Repr
+
+/-- is the whole operation one freeze..thaw region? -/
+def PenOp.isRegion : PenOp → Bool
+  | .copy _ _ => true
+  | .desc _ _ => true
+  | _ => false
+
+/-- the statements of the operation (inside its region, if it is one) -/
+def PenOp.body : PenOp → List PenStep
+  | .setBool v => [.setBool v]
+  | .setCol n => [.setCol n]
+  | .copy t ow => [.loopFg t ow, .loopBold t ow]
+  | .copyAttr t => [.copyAttrFg t]
+  | .desc n rgb => [.setCol n] ++ (match rgb with | some r => [.setRgb r] | none => [])
+
+/-- inside the region of `tickit_pen_copy_attr` for the colour (the source is read first): set the index, then the
+    RGB8 if the source has one -/
+def attrFgBody (t : Tmpl) : List PenStep :=
+  [.setCol (t.fg.getD (-1))] ++ (match t.fg, t.rgb with | some _, some r => [.setRgb r] | _, _ => [])
+
+/-- `tickit_pen_equiv_attr(src, dst, TICKIT_PEN_FG)` when both have the attribute -/
+def fgEquiv (p : PenSt) (t : Tmpl) : Bool := p.fg == t.fg && p.rgb == t.rgb
+
+/-- does the loop of `tickit_pen_copy` copy the foreground? -/
+def loopCopiesFg (p : PenSt) (t : Tmpl) (ow : Bool) : Bool :=
+  t.fg.isSome && !(p.fg.isSome && (!ow || fgEquiv p t))
+
+/-- …the bold attribute?  (`tickit_pen_get_bool_attr` of both being equal) -/
+def loopCopiesBold (p : PenSt) (t : Tmpl) (ow : Bool) : Bool :=
+  t.bold.isSome && !(p.bold.isSome && (!ow || p.bold == t.bold))
+
 inductive Action
   | bind (ev : Int) (first : Bool) (flags : BFlags) (h : Nat)
   | unbind (slot : Nat)
   | unbindSelf
   | emit (ev : Int)
   | destroy
+  /-- run a pen operation on the owner (a pen) -/
+  | pen (op : PenOp)
   deriving DecidableEq, Repr
 
 structure Beh where
@@ -85,6 +165,8 @@ structure Owner where
   /-- the owner's emitters hold a reference on it while they run its handlers
       (`tickit_pen_ref(pen); run_events(…); tickit_pen_unref(pen)`: fixes/C16_emitter_ref.patch) -/
   holdsRef : Bool := false
+  /-- the owner is a pen: its change event is emitted by `tickit_pen_set_colour_attr(pen, TICKIT_PEN_FG, n)` -/
+  penEmitFg : Option Int := none
 
 /-- Trace events.  Observable: `enter`, `leave`, `actBegin`, `actEnd`, `bound` (the id).
     Ghost: `unbindReq`, `fire`, `occBegin`, `occEnd` and the `key`/`occ` fields. -/
@@ -123,8 +205,12 @@ structure St where
   dead : Bool := false
   /-- harness memory: the handlers' own reference (the one `tickit_pen_new` / `tickit_term_build` returned) is still held -/
   userRef : Bool := true
+  /-- the pen's attributes, freeze count and `changed` flag -/
+  pen : PenSt := {}
+  /-- references held by open freeze regions (`freeze()` takes one when the emitters hold references) -/
+  frozenRefs : Nat := 0
 
-def St.init : St := ⟨[], false, false, [], fun _ => 0, 1, [], 1, false, true⟩
+def St.init : St := ⟨[], false, false, [], fun _ => 0, 1, [], 1, false, true, {}, 0⟩
 
 inductive Res (α : Type) where
   | ok (a : α)
@@ -217,6 +303,10 @@ inductive Task
   | emitter (wf : Bool) (ev : Int)
   /-- `tickit_pen_unref` / `tickit_term_unref`: destroys the owner when the count reaches zero -/
   | unref
+  /-- the rest of a pen operation -/
+  | pen (steps : List PenStep)
+  /-- `freeze(pen); <body>; thaw(pen);` -/
+  | penRegion (body : List PenStep)
   /-- `tickit_bindings_run_event` (`wf = false`) / `tickit_bindings_run_event_whilefalse` -/
   | runEvent (wf : Bool) (ev : Int)
   /-- the `for(bind = …; bind; bind = bind->next)` loop of a walker, standing at `cur` -/
@@ -251,6 +341,47 @@ def exec : Nat → Task → St → Res (St × Int)
           | .ok (st3, _) => .ok (st3, r)
           | e => e
         else .ok (st2, r)
+      | e => e
+    | .pen steps =>
+      match steps with
+      | [] => .ok (st, 0)
+      | step :: rest =>
+        if st.dead then .ok (st, 0) else
+        -- `changed(pen)`: emit now, or remember it when frozen
+        let changed (st : St) : Res (St × Int) :=
+          if st.pen.freeze = 0 then exec fuel (.emitter false 1) st
+          else .ok ({ st with pen := { st.pen with changed := true } }, 0)
+        let r : Res (St × Int) := match step with
+          | .setBool v => changed { st with pen := { st.pen with bold := some v } }
+          | .setCol n => exec fuel (.emitter false 1) { st with pen := { st.pen with fg := some n, rgb := none } }
+          | .setRgb r => if st.pen.fg.isSome then changed { st with pen := { st.pen with rgb := some r } } else .ok (st, 0)
+          | .copyAttrFg t => exec fuel (.penRegion (attrFgBody t)) st
+          | .loopFg t ow => if loopCopiesFg st.pen t ow then exec fuel (.penRegion (attrFgBody t)) st else .ok (st, 0)
+          | .loopBold t ow =>
+            if loopCopiesBold st.pen t ow then changed { st with pen := { st.pen with bold := some (t.bold.getD false) } }
+            else .ok (st, 0)
+        match r with
+        | .ok (st2, _) => exec fuel (.pen rest) st2
+        | e => e
+    | .penRegion body =>
+      if st.dead then .ok (st, 0) else
+      -- freeze(pen): a reference (when the emitters hold references), freezecount++
+      let st1 : St := { st with
+        pen := { st.pen with freeze := st.pen.freeze + 1 },
+        refs := if own.holdsRef then st.refs + 1 else st.refs,
+        frozenRefs := if own.holdsRef then st.frozenRefs + 1 else st.frozenRefs }
+      match exec fuel (.pen body) st1 with
+      | .ok (st2, _) =>
+        if st2.dead then .ok (st2, 0) else
+        -- thaw(pen): freezecount--; if(!freezecount && changed) { changed = false; run_events(…); }  unref
+        let emits := st2.pen.freeze = 1 && st2.pen.changed
+        let st3 : St := { st2 with
+          pen := { st2.pen with freeze := st2.pen.freeze - 1, changed := if emits then false else st2.pen.changed },
+          frozenRefs := if own.holdsRef then st2.frozenRefs - 1 else st2.frozenRefs }
+        let r3 : Res (St × Int) := if emits then exec fuel (.runEvent false 1) st3 else .ok (st3, 0)
+        match r3 with
+        | .ok (st4, _) => if own.holdsRef then exec fuel .unref st4 else .ok (st4, 0)
+        | e => e
       | e => e
     | .unref =>
       if st.dead || st.refs == 0 then .ub "unref of an owner that is already destroyed"
@@ -327,7 +458,13 @@ def exec : Nat → Task → St → Res (St × Int)
           | .unbindSelf => match st1.slotIds[self]? with
             | none => .ok (st1, 0)
             | some id => exec fuel (.unbindId id) st1
-          | .emit ev => if own.canEmit ev then exec fuel (.emitter (own.wf ev) ev) st1 else .ok (st1, 0)
+          | .emit ev =>
+            if own.canEmit ev then
+              match own.penEmitFg with
+              | some n => exec fuel (.pen [.setCol n]) st1
+              | none => exec fuel (.emitter (own.wf ev) ev) st1
+            else .ok (st1, 0)
+          | .pen op => if op.isRegion then exec fuel (.penRegion op.body) st1 else exec fuel (.pen op.body) st1
           -- the handlers own one reference and drop it once
           | .destroy => if st1.userRef then exec fuel .unref { st1 with userRef := false } else .ok (st1, 0)
         match r with
@@ -398,6 +535,7 @@ inductive Op
   | unbindId (id : Int)
   | emit (ev : Int)
   | destroy
+  | pen (op : PenOp)
   deriving DecidableEq, Repr
 
 def execOp (fuel : Nat) (op : Op) (st : St) : Res St :=
@@ -408,8 +546,12 @@ def execOp (fuel : Nat) (op : Op) (st : St) : Res St :=
     | some id => (exec cfg own beh fuel (.unbindId id) st).dropRet
   | .unbindId id => (exec cfg own beh fuel (.unbindId id) st).dropRet
   | .emit ev =>
-    if own.canEmit ev then (exec cfg own beh fuel (.emitter (own.wf ev) ev) st).dropRet
+    if own.canEmit ev then
+      match own.penEmitFg with
+      | some n => (exec cfg own beh fuel (.pen [.setCol n]) st).dropRet
+      | none => (exec cfg own beh fuel (.emitter (own.wf ev) ev) st).dropRet
     else .ok st
+  | .pen op => (if op.isRegion then exec cfg own beh fuel (.penRegion op.body) st else exec cfg own beh fuel (.pen op.body) st).dropRet
   | .destroy =>
     -- tickit_bindings_unbind_and_destroy: reverse the chain, notify, free
     (exec cfg own beh fuel (.destroyLoop st.list.reverse) st).dropRet
@@ -425,7 +567,7 @@ def execOps (fuel : Nat) : List Op → St → Res St
 end
 
 /-- Owners used by the harness. -/
-def Owner.pen : Owner := ⟨fun _ => false, fun ev => ev = 1, false⟩
-def Owner.term : Owner := ⟨fun ev => decide (ev ≥ 2), fun ev => decide (1 ≤ ev ∧ ev ≤ 3), false⟩
+def Owner.pen : Owner := ⟨fun _ => false, fun ev => ev = 1, false, some 7⟩
+def Owner.term : Owner := ⟨fun ev => decide (ev ≥ 2), fun ev => decide (1 ≤ ev ∧ ev ≤ 3), false, none⟩
 
 end Tickit.Bindings
